@@ -230,6 +230,17 @@ func TestC15(t *testing.T) {
 		}
 	}
 
+	// (1b) every form of the message: none, empty, empty followed by more arguments, a message followed by an empty one -
+	// the documented text is the given message (first argument) or 'parameter todo' when there is no argument
+	if ev.Mine(4) {
+		conf := cfg.Config{Meta: cfg.Meta{Pkg: sp("app")}, Params: []cfg.Param{
+			{Name: "e0", Val: cfg.Str(`%todo("")%`)}, {Name: "e1", Val: cfg.Str(`%todo("", "x")%`)}, {Name: "e2", Val: cfg.Str(`%todo("msg", "")%`)},
+			{Name: "e3", Val: cfg.Str(`%todo()%`)}, {Name: "e4", Val: cfg.Str(`%todo(" ")%`)}, {Name: "dep", Val: cfg.Str(`v=%e0%`)}, {Name: "dep1", Val: cfg.Str(`%e1%`)}},
+			Services: []cfg.Service{{Name: "s", Ctor: sp("fx/lib.NewObj"), Args: []cfg.Val{cfg.Str("%e1%")}}, {Name: "u", Ctor: sp("fx/lib.NewObj"), Args: []cfg.Val{cfg.Str("%dep%")}}}}
+		m := behMember{Files: []cfg.Config{conf}, Script: scriptAll(conf), Labels: []string{"hand-built:todo-message-forms"}}
+		behBatch(t, behCase{Members: []behMember{m}}, c15NonTrivial, c15Check, c15OnReject)
+	}
+
 	// (2) exhaustive histories on two small configurations
 	maxLen := pick(3, 4)
 	var members []behMember
